@@ -75,53 +75,91 @@ def sites(doc):
 
 
 def mutate(rng, doc):
-    """-> (doc', kind) one small change somewhere"""
+    """-> (doc', kind) one small change somewhere; the kind is drawn first, then a site that supports it"""
     d = copy.deepcopy(doc)
     ss = sites(d)
-    for _ in range(20):
-        s = rng.choice(ss)
-        kind = rng.choice(["lit", "lit", "drop", "add_none", "class", "prop_required", "prop_source", "reorder", "swap", "rename", "numtype"])
+    LIT = ("default", "const", "enum", "minimum", "maximum", "multipleOf", "minLength", "maxLength", "minItems", "maxItems",
+           "exclusiveMinimum", "exclusiveMaximum", "description", "pattern", "required")
+    NUM = ("minimum", "maximum", "multipleOf", "exclusiveMinimum", "exclusiveMaximum")
+
+    def props_of(s):
+        return s.get("props") if s["k"] == "Obj" else (s.get("kw") or {}).get("properties")
+
+    kinds = ["lit", "lit", "drop", "add_none", "class", "prop_required", "prop_required_defaulted", "prop_source", "reorder", "swap", "numtype"]
+    rng.shuffle(kinds)
+    for kind in kinds:
+        cands = []
+        for s in ss:
+            kw = s.get("kw")
+            if kind == "lit" and kw and any(k in LIT for k in kw):
+                cands.append(s)
+            elif kind == "numtype" and kw and any(k in NUM and isinstance(kw[k], int) and not isinstance(kw[k], bool) for k in kw):
+                cands.append(s)
+            elif kind == "drop" and kw and any(not (s["k"] == "Array" and k == "items") for k in kw):
+                cands.append(s)
+            elif kind == "add_none" and kw is not None and s["k"] != "Obj" and ("default" not in kw or "const" not in kw):
+                cands.append(s)
+            elif kind == "class" and s["k"] in ("String", "Integer", "Number", "Boolean", "Null") and not set(s["kw"]) - {"default", "const", "enum", "description"}:
+                cands.append(s)
+            elif kind in ("prop_required", "prop_source", "prop_required_defaulted") and props_of(s):
+                cands.append(s)
+            elif kind == "reorder" and props_of(s) and len(props_of(s)) > 1:
+                cands.append(s)
+            elif kind == "swap" and len(s.get("elements", [])) > 1:
+                cands.append(s)
+        if not cands:
+            continue
+        s = rng.choice(cands)
         kw = s.get("kw")
-        if kind == "lit" and kw:
-            ks = [k for k in kw if k in ("default", "const", "enum", "minimum", "maximum", "multipleOf", "minLength", "maxLength",
-                                          "minItems", "maxItems", "exclusiveMinimum", "exclusiveMaximum", "description", "pattern", "required")]
-            if ks:
-                k = rng.choice(ks)
-                kw[k] = lookalike_lit(rng, kw[k])
-                if k in ("minLength", "maxLength", "minItems", "maxItems") and not isinstance(kw[k], (int, float)):
-                    continue
-                return d, "lit:" + k
-        if kind == "numtype" and kw:
-            ks = [k for k in kw if k in ("minimum", "maximum", "multipleOf", "exclusiveMinimum", "exclusiveMaximum") and isinstance(kw[k], int)
-                  and not isinstance(kw[k], bool)]
-            if ks:
-                k = rng.choice(ks)
-                kw[k] = float(kw[k])
-                return d, "numtype:" + k
-        if kind == "drop" and kw:
-            ks = [k for k in kw if not (s["k"] == "Array" and k == "items")]
-            if ks:
-                del kw[rng.choice(ks)]
-                return d, "drop"
-        if kind == "add_none" and kw is not None and s["k"] not in ("Obj",):
-            k = rng.choice(["default", "const"])
-            if k not in kw:
-                kw[k] = None
-                return d, "add_none:" + k
-        if kind == "class" and s["k"] in ("String", "Integer", "Number", "Boolean", "Null") and not set(s["kw"]) - {"default", "const", "enum", "description"}:
+        if kind == "lit":
+            k = rng.choice([k for k in kw if k in LIT])
+            new = lookalike_lit(rng, kw[k])
+            if k in ("minLength", "maxLength", "minItems", "maxItems") and (isinstance(new, bool) or not isinstance(new, (int, float))):
+                continue
+            if k in ("pattern", "description") and not isinstance(new, str):
+                continue
+            if k == "required" and not (isinstance(new, list) and all(isinstance(x, str) for x in new)):
+                continue
+            if k == "enum" and not isinstance(new, list):
+                continue
+            kw[k] = new
+            return d, "lit:" + k
+        if kind == "numtype":
+            k = rng.choice([k for k in kw if k in NUM and isinstance(kw[k], int) and not isinstance(kw[k], bool)])
+            kw[k] = float(kw[k])
+            return d, "numtype:" + k
+        if kind == "drop":
+            del kw[rng.choice([k for k in kw if not (s["k"] == "Array" and k == "items")])]
+            return d, "drop"
+        if kind == "add_none":
+            k = rng.choice([k for k in ("default", "const") if k not in kw])
+            kw[k] = None
+            return d, "add_none:" + k
+        if kind == "class":
             s["k"] = rng.choice([x for x in ("String", "Integer", "Number", "Boolean", "Null", "Element") if x != s["k"]])
             return d, "class"
-        props = (kw or {}).get("properties") if s["k"] != "Obj" else s.get("props")
-        if kind == "prop_required" and props:
+        props = props_of(s)
+        if kind == "prop_required":
             p = props[rng.choice(sorted(props))]
             p["required"] = not p["required"]
-            return d, "prop_required" + (":defaulted" if dslgen._has_default(d, p["e"]) else "")
-        if kind == "prop_source" and props:
+            return d, "prop_required"
+        if kind == "prop_required_defaulted":
+            p = props[rng.choice(sorted(props))]
+            e = p["e"]
+            if e["k"] in ("String", "Integer", "Number", "Boolean", "Null", "Element", "Array"):
+                e["kw"].setdefault("default", "x")
+            elif e["k"] in ("AnyOf", "OneOf", "AllOf", "Not"):
+                e.setdefault("default", "x")
+            else:
+                continue
+            base = copy.deepcopy(d)           # both sides carry the default; only `required` differs
+            p["required"] = not p["required"]
+            return (base, d), "prop_required_defaulted"
+        if kind == "prop_source":
             a = rng.choice(sorted(props))
-            p = props[a]
-            p["source"] = (p["source"] or a) + "x"
+            props[a]["source"] = (props[a]["source"] or a) + "x"
             return d, "prop_source"
-        if kind == "reorder" and props and len(props) > 1:
+        if kind == "reorder":
             items = list(props.items())
             rng.shuffle(items)
             if s["k"] == "Obj":
@@ -129,11 +167,9 @@ def mutate(rng, doc):
             else:
                 kw["properties"] = dict(items)
             return d, "reorder(equal expected)"
-        if kind == "swap" and len(s.get("elements", [])) > 1:
+        if kind == "swap":
             s["elements"].reverse()
             return d, "swap"
-        if kind == "rename" and s["k"] == "Obj" and False:
-            pass
     return d, "none(equal expected)"
 
 
@@ -195,7 +231,10 @@ def run(tier, seed, replay=None):
             pairs.append((doc, copy.deepcopy(doc), "copy"))
             for _ in range(2):
                 d2, kind = mutate(rng, doc)
-                pairs.append((doc, d2, kind))
+                if isinstance(d2, tuple):
+                    pairs.append((d2[0], d2[1], kind))
+                else:
+                    pairs.append((doc, d2, kind))
     cases, metas = [], []
     for da, db, kind in pairs:
         try:
@@ -206,6 +245,12 @@ def run(tier, seed, replay=None):
         stats["pairs"] += 1
         stats["mutation_kinds"][kind.split(":")[0]] = stats["mutation_kinds"].get(kind.split(":")[0], 0) + 1
         ab, ba = (ea == eb), (eb == ea)
+        if isinstance(ab, bool) and isinstance(ba, bool):
+            try:   # the model sees the trees as they are when == is evaluated (before any validation call)
+                cases.append("(%s, %s, %s, %s)" % (cq_elem(ea), cq_elem(eb), cq_bool(ab), cq_bool(ba)))
+                metas.append({"property": "C17", "doc_a": da, "doc_b": db, "mutation": kind})
+            except Unmodelled:
+                stats["unmodelled"] += 1
         res.count(json.dumps([da, db], sort_keys=True, default=repr), nontrivial=kind != "copy")
         payload = {"property": "C17", "doc_a": da, "doc_b": db, "mutation": kind, "replay": "./check C17 --replay <this file>"}
         if not (isinstance(ab, bool) and isinstance(ba, bool)) or ab != ba:
@@ -241,11 +286,6 @@ def run(tier, seed, replay=None):
         else:
             stats["unequal_pairs"] += 1
         res.sample({"a": repr(ea)[:200], "b": repr(eb)[:200], "mutation": kind, "equal": ab}, limit=5)
-        try:
-            cases.append("(%s, %s, %s, %s)" % (cq_elem(ea), cq_elem(eb), cq_bool(ab), cq_bool(ba)))
-            metas.append(payload)
-        except Unmodelled:
-            stats["unmodelled"] += 1
     codes, err = sc.eval_codes(["Elem", "Equality", "RunEq"], "run_eq_case", cases, tag="c17", shard=120)
     res.corr_error = err
     res.corr_mismatches = [dict(metas[i], codes=cs, what="Equality.elem_eq disagrees with the implementation's ==") for i, cs in sorted((codes or {}).items())]
